@@ -8,6 +8,8 @@ import RigModel.Model.C11
 import RigModel.Gen.PyFun
 set_option linter.unusedSimpArgs false
 set_option linter.unusedVariables false
+set_option linter.unusedTactic false
+set_option linter.unreachableTactic false
 
 namespace Rig.C11
 open Rig.Gen
@@ -24,24 +26,29 @@ theorem gen_minimise_xyz (v : V3) : PyFun.minimise_xyz (t3 v) = t3 (minimiseXyz 
 
 /-- `shortest_mesh_path_length` as written in the source = the model -/
 theorem gen_mesh_len (s d : V3) : PyFun.shortest_mesh_path_length (t3 s) (t3 d) = meshLen s d := by
-  obtain ⟨sx, sy, sz⟩ := s; obtain ⟨dx, dy, dz⟩ := d; rfl
+  obtain ⟨sx, sy, sz⟩ := s; obtain ⟨dx, dy, dz⟩ := d
+  first
+  | rfl
+  | (simp only [PyFun.shortest_mesh_path_length, meshLen, t3]
+     repeat' split
+     all_goals omega)
 
-/-- `shortest_torus_path_length` as written in the source = the model (Python raises
-ZeroDivisionError for a zero width or height; elsewhere the generated total function is the code) -/
+/-- `shortest_torus_path_length` as written in the source = the model's `torusLenCore`
+(for every w, h; Python itself raises ZeroDivisionError when one of them is 0) -/
+theorem gen_torus_len_is_model (s d : V3) (w h : Int) :
+    PyFun.shortest_torus_path_length (t3 s) (t3 d) w h = torusLenCore s d w h := by
+  obtain ⟨sx, sy, sz⟩ := s; obtain ⟨dx, dy, dz⟩ := d
+  first
+  | rfl
+  | -- a rewrite of the source that is not syntactically the model: decide it semantically
+    (simp only [PyFun.shortest_torus_path_length, torusLenCore, pyMod, t3]
+     repeat' split
+     all_goals omega)
+
+/-- the model's `shortest_torus_path_length`, with its ZeroDivisionError, in terms of the generated code -/
 theorem gen_torus_len (s d : V3) (w h : Int) (hw : w ≠ 0) (hh : h ≠ 0) :
     torusLen s d w h = .ok (PyFun.shortest_torus_path_length (t3 s) (t3 d) w h) := by
-  obtain ⟨sx, sy, sz⟩ := s; obtain ⟨dx, dy, dz⟩ := d
   have : ¬ (w = 0 ∨ h = 0) := by simp [hw, hh]
-  simp only [torusLen, this, if_false]
-  rfl
-
-/-- consequently the theorems about the model are theorems about the generated code:
-the source's torus length is the graph distance -/
-theorem gen_torus_len_is_model (s d : V3) (w h : Int) (hw : w ≠ 0) (hh : h ≠ 0) :
-    PyFun.shortest_torus_path_length (t3 s) (t3 d) w h = torusLenCore s d w h := by
-  have := gen_torus_len s d w h hw hh
-  have hne : ¬ (w = 0 ∨ h = 0) := by simp [hw, hh]
-  simp only [torusLen, hne, if_false, Except.ok.injEq] at this
-  exact this.symm
+  simp only [torusLen, this, if_false, gen_torus_len_is_model]
 
 end Rig.C11
